@@ -312,4 +312,1132 @@ theorem classify_eq (line : Str) : classify line = toItem (matchCommand line) :=
       cases a1 <;> cases a2 <;> cases a3 <;> cases a4 <;> simp [toItem, matchAlt]
     · simp [classify, argOf_not_backslash _ _ _ hc, matchCommand, hc, toItem]
 
+/-! ## 3. the parse is a fold of `applyEvent` over the spec's events -/
+
+/-- `{ st with context := x }` -/
+@[reducible] def withCtx (st : St) (x : Option Ctx) : St := { st with context := x }
+
+@[simp] theorem withCtx_withCtx (st : St) (a b : Option Ctx) : withCtx (withCtx st a) b = withCtx st b := rfl
+@[simp] theorem withCtx_context (st : St) (a : Option Ctx) : (withCtx st a).context = a := rfl
+@[simp] theorem withCtx_style (st : St) (a : Option Ctx) : (withCtx st a).style = st.style := rfl
+@[simp] theorem withCtx_data (st : St) (a : Option Ctx) : (withCtx st a).data = st.data := rfl
+@[simp] theorem withCtx_citations (st : St) (a : Option Ctx) : (withCtx st a).citations = st.citations := rfl
+@[simp] theorem withCtx_reports (st : St) (a : Option Ctx) : (withCtx st a).reports = st.reports := rfl
+theorem withCtx_self (st : St) (a : Option Ctx) (h : st.context = a) : withCtx st a = st := by
+  cases st; simp only at h; subst h; rfl
+
+/-- the context an event's reports are made in -/
+def ctxOf (e : Event) : Ctx := ⟨e.file, some e.lineno, some e.text⟩
+
+/-- what reading one event does to the state (the context is not touched) -/
+def applyEvent (st : St) (e : Event) : St :=
+  match e.item with
+  | .citation keys => keys.foldl (citeKey (ctxOf e)) st
+  | .bibstyle s => handleBibstyle (ctxOf e) st s
+  | .bibdata names =>
+    match st.data with
+    | some _ => report st (mkError .anotherBibdata (ctxOf e))
+    | none => { st with data := some names }
+  | .input _ => st
+  | .other => st
+
+def run (st : St) (evs : List Event) : St := evs.foldl applyEvent st
+
+@[simp] theorem run_nil (st : St) : run st [] = st := rfl
+@[simp] theorem run_cons (st : St) (e : Event) (evs : List Event) :
+    run st (e :: evs) = run (applyEvent st e) evs := rfl
+theorem run_append (st : St) (a b : List Event) : run st (a ++ b) = run (run st a) b := by
+  simp [run, List.foldl_append]
+
+theorem citeKey_withCtx (ctx : Ctx) (st : St) (x : Option Ctx) (k : Str) :
+    citeKey ctx (withCtx st x) k = withCtx (citeKey ctx st k) x := by
+  simp only [citeKey, withCtx, report]
+  split
+  · split <;> rfl
+  · rfl
+
+theorem foldl_citeKey_withCtx (ctx : Ctx) (keys : List Str) (st : St) (x : Option Ctx) :
+    keys.foldl (citeKey ctx) (withCtx st x) = withCtx (keys.foldl (citeKey ctx) st) x := by
+  induction keys generalizing st with
+  | nil => rfl
+  | cons k ks ih => simp only [List.foldl_cons, citeKey_withCtx, ih]
+
+theorem applyEvent_withCtx (st : St) (x : Option Ctx) (e : Event) :
+    applyEvent (withCtx st x) e = withCtx (applyEvent st e) x := by
+  unfold applyEvent
+  split
+  · exact foldl_citeKey_withCtx _ _ _ _
+  · simp only [handleBibstyle, withCtx, report]; split <;> rfl
+  · simp only [withCtx, report]; split <;> rfl
+  · rfl
+  · rfl
+
+theorem run_withCtx (st : St) (x : Option Ctx) (evs : List Event) :
+    run (withCtx st x) evs = withCtx (run st evs) x := by
+  induction evs generalizing st with
+  | nil => rfl
+  | cons e evs ih => simp only [run_cons, applyEvent_withCtx, ih]
+
+theorem citeKey_context (ctx : Ctx) (st : St) (k : Str) : (citeKey ctx st k).context = st.context := by
+  simp only [citeKey, report]
+  split
+  · split <;> rfl
+  · rfl
+
+theorem foldl_citeKey_context (ctx : Ctx) (keys : List Str) (st : St) :
+    (keys.foldl (citeKey ctx) st).context = st.context := by
+  induction keys generalizing st with
+  | nil => rfl
+  | cons k ks ih => simp only [List.foldl_cons, ih, citeKey_context]
+
+theorem applyEvent_context (st : St) (e : Event) : (applyEvent st e).context = st.context := by
+  unfold applyEvent
+  split
+  · exact foldl_citeKey_context _ _ _
+  · simp only [handleBibstyle, report]; split <;> rfl
+  · simp only [report]; split <;> rfl
+  · rfl
+  · rfl
+
+theorem run_context (st : St) (evs : List Event) : (run st evs).context = st.context := by
+  induction evs generalizing st with
+  | nil => rfl
+  | cons e evs ih => simp only [run_cons, ih, applyEvent_context]
+
+theorem classify_input_iff (l : Str) (q : Path) :
+    classify l = .input q ↔ matchCommand l = some (.input, q) := by
+  rw [classify_eq]
+  cases matchCommand l with
+  | none => simp [toItem]
+  | some cv =>
+    obtain ⟨c, v⟩ := cv
+    cases c <;> simp [toItem]
+
+/-- one line: an `\@input` line hands over to the nested parse, every other line applies its event -/
+theorem parseLine_eq (inp : St → Path → Except Abort St) (st : St) (c : Ctx)
+    (hc : st.context = some c) (l : Str) (n : Nat) :
+    parseLine inp st l n =
+      (match classify l with
+       | .input q => inp (withCtx st (some ⟨c.filename, some n, some (strip l)⟩)) q
+       | _ => .ok (withCtx (applyEvent st ⟨c.filename, n, strip l, classify l⟩)
+                (some ⟨c.filename, some n, some (strip l)⟩))) := by
+  unfold parseLine
+  rw [hc, classify_eq]
+  cases matchCommand l with
+  | none => simp [toItem, applyEvent]
+  | some cv =>
+    obtain ⟨cmd, v⟩ := cv
+    cases cmd with
+    | citation =>
+      simp only [toItem, handleCommand, handleCitation, pySplit_eq, applyEvent, ctxOf]
+      rw [← foldl_citeKey_withCtx]
+    | bibstyle =>
+      simp only [toItem, handleCommand, applyEvent, ctxOf]
+      simp only [handleBibstyle, withCtx, report]
+      split <;> rfl
+    | bibdata =>
+      simp only [toItem, handleCommand, applyEvent, ctxOf]
+      simp only [handleBibdata, withCtx, report, pySplit_eq]
+      obtain ⟨ctx0, sty, dat, cit, can, rep⟩ := st
+      cases dat <;> rfl
+    | input => simp only [toItem, handleCommand, handleInput]
+
+theorem inputsOf_cons_input (l : Str) (ls : List Str) (q : Path) (h : classify l = .input q) :
+    inputsOf (l :: ls) = q :: inputsOf ls := by
+  simp [inputsOf, (classify_input_iff l q).mp h]
+
+theorem inputsOf_subset_cons (l : Str) (ls : List Str) : ∀ q ∈ inputsOf ls, q ∈ inputsOf (l :: ls) := by
+  intro q hq
+  simp only [inputsOf]
+  split
+  · exact List.mem_cons_of_mem _ hq
+  · exact hq
+
+/-- a list of lines: the events of the lines, nested files spliced in -/
+theorem parseLines_eq (inp : St → Path → Except Abort St) (sub : Path → List Event) (p : Path)
+    (Q : Path → Prop)
+    (hinp : ∀ q st c0, Q q → st.context = some c0 → inp st q = .ok (run st (sub q))) :
+    ∀ (ls : List Str) (n : Nat) (st : St) (c : Ctx), st.context = some c → c.filename = p →
+      (∀ q ∈ inputsOf ls, Q q) →
+      ∃ c' : Ctx, c'.filename = p ∧
+        parseLines inp ls n st = .ok (withCtx (run st (lineEvents sub p ls n)) (some c')) := by
+  intro ls
+  induction ls with
+  | nil =>
+    intro n st c hc hp _
+    exact ⟨c, hp, by simp [parseLines, lineEvents, withCtx_self st _ hc]⟩
+  | cons l ls ih =>
+    intro n st c hc hp hQ
+    simp only [parseLines, lineEvents]
+    rw [parseLine_eq inp st c hc l n]
+    cases hcl : classify l with
+    | input q =>
+      simp only []
+      have hq : Q q := hQ q (by rw [inputsOf_cons_input l ls q hcl]; simp)
+      rw [hinp q _ _ hq (withCtx_context _ _)]
+      simp only []
+      obtain ⟨c', hc', h⟩ := ih (n + 1) (run (withCtx st (some ⟨c.filename, some n, some (strip l)⟩)) (sub q))
+        ⟨c.filename, some n, some (strip l)⟩ (by rw [run_context]) hp
+        (fun q' hq' => hQ q' (inputsOf_subset_cons l ls q' hq'))
+      refine ⟨c', hc', ?_⟩
+      rw [h, hp]
+      simp only [run_cons, run_append, run_withCtx, withCtx_withCtx, applyEvent]
+    | citation keys =>
+      simp only []
+      obtain ⟨c', hc', h⟩ := ih (n + 1) (withCtx (applyEvent st ⟨c.filename, n, strip l, .citation keys⟩)
+          (some ⟨c.filename, some n, some (strip l)⟩))
+        ⟨c.filename, some n, some (strip l)⟩ rfl hp
+        (fun q' hq' => hQ q' (inputsOf_subset_cons l ls q' hq'))
+      refine ⟨c', hc', ?_⟩
+      rw [h, hp]
+      simp only [run_cons, List.nil_append, run_withCtx, withCtx_withCtx]
+    | bibstyle s =>
+      simp only []
+      obtain ⟨c', hc', h⟩ := ih (n + 1) (withCtx (applyEvent st ⟨c.filename, n, strip l, .bibstyle s⟩)
+          (some ⟨c.filename, some n, some (strip l)⟩))
+        ⟨c.filename, some n, some (strip l)⟩ rfl hp
+        (fun q' hq' => hQ q' (inputsOf_subset_cons l ls q' hq'))
+      refine ⟨c', hc', ?_⟩
+      rw [h, hp]
+      simp only [run_cons, List.nil_append, run_withCtx, withCtx_withCtx]
+    | bibdata names =>
+      simp only []
+      obtain ⟨c', hc', h⟩ := ih (n + 1) (withCtx (applyEvent st ⟨c.filename, n, strip l, .bibdata names⟩)
+          (some ⟨c.filename, some n, some (strip l)⟩))
+        ⟨c.filename, some n, some (strip l)⟩ rfl hp
+        (fun q' hq' => hQ q' (inputsOf_subset_cons l ls q' hq'))
+      refine ⟨c', hc', ?_⟩
+      rw [h, hp]
+      simp only [run_cons, List.nil_append, run_withCtx, withCtx_withCtx]
+    | other =>
+      simp only []
+      obtain ⟨c', hc', h⟩ := ih (n + 1) (withCtx (applyEvent st ⟨c.filename, n, strip l, .other⟩)
+          (some ⟨c.filename, some n, some (strip l)⟩))
+        ⟨c.filename, some n, some (strip l)⟩ rfl hp
+        (fun q' hq' => hQ q' (inputsOf_subset_cons l ls q' hq'))
+      refine ⟨c', hc', ?_⟩
+      rw [h, hp]
+      simp only [run_cons, List.nil_append, run_withCtx, withCtx_withCtx]
+
+theorem finish_some (c0 : Ctx) (X : St) :
+    finish (some c0) false X = .ok (withCtx X (some c0)) := by
+  simp [finish]
+
+/-- `parse_file` on a closed inclusion of depth ≤ `d`, with any fuel ≥ `d`: the events of the file
+are applied in order; the context is then restored / cleared and the fatal checks made. -/
+theorem parseFile_eq (fs : FS) : ∀ (d fuel : Nat) (q : Path) (st : St) (tl : Bool),
+    closedDepth fs d q = true → d ≤ fuel →
+    ∃ c' : Ctx, c'.filename = q ∧
+      parseFile fs fuel st q tl = finish st.context tl (withCtx (run st (events fs d q)) (some c')) := by
+  intro d
+  induction d with
+  | zero => intro fuel q st tl h; simp [closedDepth] at h
+  | succ d ih =>
+    intro fuel q st tl hcl hle
+    obtain ⟨f, rfl⟩ : ∃ f, fuel = f + 1 := ⟨fuel - 1, by omega⟩
+    simp only [closedDepth] at hcl
+    cases hfs : fs q with
+    | none => simp [hfs] at hcl
+    | some lines =>
+      simp only [hfs, List.all_eq_true] at hcl
+      have hinp : ∀ q' (st' : St) (c0 : Ctx), closedDepth fs d q' = true → st'.context = some c0 →
+          (fun s p => parseFile fs f s p false) st' q' = .ok (run st' (events fs d q')) := by
+        intro q' st' c0 hq' hc0
+        obtain ⟨c', _, h⟩ := ih f q' st' false hq' (by omega)
+        simp only [h, hc0, finish_some, withCtx_withCtx]
+        rw [withCtx_self]
+        rw [run_context, hc0]
+      obtain ⟨c', hc', h⟩ := parseLines_eq (fun s p => parseFile fs f s p false) (events fs d) q
+        (fun q' => closedDepth fs d q' = true) hinp lines 1 (withCtx st (some (Ctx.new q))) (Ctx.new q)
+        rfl rfl hcl
+      refine ⟨c', hc', ?_⟩
+      simp only [parseFile, hfs, events]
+      rw [h]
+      simp only [run_withCtx, withCtx_withCtx]
+
+/-- a nested `\@input` (context present, not top level) just applies the events of the file -/
+theorem parseFile_nested (fs : FS) (d fuel : Nat) (q : Path) (st : St) (c0 : Ctx)
+    (hcl : closedDepth fs d q = true) (hle : d ≤ fuel) (hc : st.context = some c0) :
+    parseFile fs fuel st q false = .ok (run st (events fs d q)) := by
+  obtain ⟨c', _, h⟩ := parseFile_eq fs d fuel q st false hcl hle
+  rw [h, hc, finish_some, withCtx_withCtx, withCtx_self]
+  rw [run_context, hc]
+
+/-- the state after all events of the top-level document, from the initial state -/
+def final (evs : List Event) : St := run St.init evs
+
+/-- the top-level parse in terms of the events -/
+theorem parse_eq (fs : FS) (d fuel : Nat) (p : Path) (hcl : closedDepth fs d p = true) (hle : d ≤ fuel) :
+    parse fs fuel p =
+      (let X := final (events fs d p)
+       let ctx : Ctx := ⟨p, none, none⟩
+       if X.data.isNone then .error ⟨.aux (mkError .noBibdata ctx), X.reports⟩
+       else if X.style.isNone then .error ⟨.aux (mkError .noBibstyle ctx), X.reports⟩
+       else .ok (withCtx X (some ctx))) := by
+  obtain ⟨c', hc', h⟩ := parseFile_eq fs d fuel p St.init true hcl hle
+  unfold parse
+  rw [h]
+  simp only [finish, St.init, Bool.true_and, hc', final]
+  rfl
+
+/-! ## 4. the fold computes the specification (one invariant) -/
+
+theorem dget_dset {V : Type} (m : List (Str × V)) (a b : Str) (v : V) :
+    dget (dset m a v) b = if a = b then some v else dget m b := by
+  induction m with
+  | nil => simp [dset, dget]
+  | cons e m ih =>
+    obtain ⟨k', v'⟩ := e
+    simp only [dset]
+    by_cases h1 : k' = a
+    · subst h1
+      simp only [if_true, dget]
+      split <;> rfl
+    · simp only [if_neg h1, dget, ih]
+      by_cases h2 : k' = b
+      · subst h2
+        simp [Ne.symm h1]
+      · simp [h2]
+
+/-- `_canonical_keys` holds, for every key (up to case), the spelling cited last -/
+def CanonInv (st : St) : Prop := ∀ key, dget st.canonical (lower key) = lastSpelling st.citations key
+
+theorem lastSpelling_snoc (before : List Str) (k key : Str) :
+    lastSpelling (before ++ [k]) key = if lower k = lower key then some k else lastSpelling before key := by
+  simp only [lastSpelling, List.reverse_append, List.reverse_cons, List.reverse_nil, List.nil_append,
+    List.singleton_append, List.find?_cons]
+  by_cases h : lower k = lower key <;> simp [h]
+
+/-- the report a key causes, given the keys cited before it -/
+def keyReports (ctx : Ctx) (before : List Str) (k : Str) : List Report :=
+  match lastSpelling before k with
+  | some k' => if k ≠ k' then [mkError (.caseMismatch k k') ctx] else []
+  | none => []
+
+theorem citeKey_spec (ctx : Ctx) (st : St) (k : Str) (hinv : CanonInv st) :
+    (citeKey ctx st k).citations = st.citations ++ [k] ∧
+    (citeKey ctx st k).style = st.style ∧ (citeKey ctx st k).data = st.data ∧
+    CanonInv (citeKey ctx st k) ∧
+    (citeKey ctx st k).reports = st.reports ++ keyReports ctx st.citations k := by
+  have hk := hinv k
+  unfold citeKey keyReports
+  simp only [hk]
+  cases hl : lastSpelling st.citations k with
+  | none =>
+    refine ⟨rfl, rfl, rfl, ?_, by simp⟩
+    intro key
+    simp only [dget_dset, lastSpelling_snoc, hinv key]
+  | some k' =>
+    by_cases hne : k = k'
+    · refine ⟨by simp [hne], by simp [hne], by simp [hne], ?_, by simp [hne]⟩
+      intro key
+      simp only [hne, ne_eq, not_true_eq_false, if_false, dget_dset, lastSpelling_snoc, hinv key]
+    · refine ⟨by simp [hne, report], by simp [hne, report], by simp [hne, report], ?_, by simp [hne, report]⟩
+      intro key
+      simp only [ne_eq, hne, not_false_eq_true, if_true, report, dget_dset, lastSpelling_snoc, hinv key]
+
+theorem foldl_citeKey_spec (ctx : Ctx) (keys : List Str) (st : St) (hinv : CanonInv st) :
+    (keys.foldl (citeKey ctx) st).citations = st.citations ++ keys ∧
+    (keys.foldl (citeKey ctx) st).style = st.style ∧ (keys.foldl (citeKey ctx) st).data = st.data ∧
+    CanonInv (keys.foldl (citeKey ctx) st) ∧
+    (keys.foldl (citeKey ctx) st).reports =
+      st.reports ++ (mismatches st.citations keys).map (fun kk => mkError (.caseMismatch kk.1 kk.2) ctx) := by
+  induction keys generalizing st with
+  | nil => simp [mismatches, hinv]
+  | cons k ks ih =>
+    obtain ⟨h1, h2, h3, h4, h5⟩ := citeKey_spec ctx st k hinv
+    obtain ⟨i1, i2, i3, i4, i5⟩ := ih (citeKey ctx st k) h4
+    simp only [List.foldl_cons]
+    refine ⟨by rw [i1, h1]; simp, by rw [i2, h2], by rw [i3, h3], i4, ?_⟩
+    rw [i5, h5, h1]
+    simp only [mismatches, List.map_append, List.append_assoc, keyReports]
+    congr 1
+    cases lastSpelling st.citations k with
+    | none => simp
+    | some k' => by_cases hne : k = k' <;> simp [hne]
+
+/-- the state agrees with the specification on the events read so far -/
+structure Sim (before : List Event) (st : St) : Prop where
+  cit : st.citations = citations before
+  sty : st.style = style before
+  dat : st.data = data before
+  can : CanonInv st
+
+theorem Sim.init : Sim [] St.init :=
+  ⟨rfl, rfl, rfl, fun key => by simp [St.init, dget, lastSpelling]⟩
+
+theorem citations_snoc (before : List Event) (e : Event) :
+    citations (before ++ [e]) = citations before ++ (match e.item with | .citation keys => keys | _ => []) := by
+  simp only [citations, List.flatMap_append, List.flatMap_cons, List.flatMap_nil, List.append_nil]
+  cases e.item <;> rfl
+
+theorem style_snoc (before : List Event) (e : Event) :
+    style (before ++ [e]) = (style before).or (match e.item with | .bibstyle s => some s | _ => none) := by
+  simp only [style, List.findSome?_append, List.findSome?_cons, List.findSome?_nil]
+  cases List.findSome? _ before with
+  | some s => simp
+  | none => cases e.item <;> simp
+
+theorem data_snoc (before : List Event) (e : Event) :
+    data (before ++ [e]) = (data before).or (match e.item with | .bibdata ns => some ns | _ => none) := by
+  simp only [data, List.findSome?_append, List.findSome?_cons, List.findSome?_nil]
+  cases List.findSome? _ before with
+  | some s => simp
+  | none => cases e.item <;> simp
+
+theorem applyEvent_spec (before : List Event) (st : St) (e : Event) (h : Sim before st) :
+    Sim (before ++ [e]) (applyEvent st e) ∧
+    (applyEvent st e).reports = st.reports ++ reportsOf before e := by
+  obtain ⟨hc, hs, hd, hi⟩ := h
+  unfold applyEvent reportsOf
+  cases hit : e.item with
+  | citation keys =>
+    obtain ⟨i1, i2, i3, i4, i5⟩ := foldl_citeKey_spec (ctxOf e) keys st hi
+    simp only []
+    refine ⟨⟨?_, ?_, ?_, i4⟩, ?_⟩
+    · rw [i1, citations_snoc, hit, hc]
+    · rw [i2, style_snoc, hit, hs]; simp
+    · rw [i3, data_snoc, hit, hd]; simp
+    · rw [i5, hc]; rfl
+  | bibstyle s =>
+    simp only [handleBibstyle]
+    cases hst : st.style with
+    | some s0 =>
+      simp only [report]
+      refine ⟨⟨?_, ?_, ?_, hi⟩, ?_⟩
+      · rw [citations_snoc, hit, ← hc]; simp
+      · rw [style_snoc, hit, ← hs, hst]; simp
+      · rw [data_snoc, hit, ← hd]; simp
+      · rw [← hs, hst]; simp [located, mkError, ctxOf]
+    | none =>
+      refine ⟨⟨?_, ?_, ?_, hi⟩, ?_⟩
+      · rw [citations_snoc, hit, ← hc]; simp
+      · rw [style_snoc, hit, ← hs, hst]; simp
+      · rw [data_snoc, hit, ← hd]; simp
+      · rw [← hs, hst]; simp
+  | bibdata names =>
+    simp only []
+    cases hst : st.data with
+    | some s0 =>
+      simp only [report]
+      refine ⟨⟨?_, ?_, ?_, hi⟩, ?_⟩
+      · rw [citations_snoc, hit, ← hc]; simp
+      · rw [style_snoc, hit, ← hs]; simp
+      · rw [data_snoc, hit, ← hd, hst]; simp
+      · rw [← hd, hst]; simp [located, mkError, ctxOf]
+    | none =>
+      refine ⟨⟨?_, ?_, ?_, hi⟩, ?_⟩
+      · rw [citations_snoc, hit, ← hc]; simp
+      · rw [style_snoc, hit, ← hs]; simp
+      · rw [data_snoc, hit, ← hd, hst]; simp
+      · rw [← hd, hst]; simp
+  | input q =>
+    simp only []
+    refine ⟨⟨?_, ?_, ?_, hi⟩, by simp⟩
+    · rw [citations_snoc, hit, ← hc]; simp
+    · rw [style_snoc, hit, ← hs]; simp
+    · rw [data_snoc, hit, ← hd]; simp
+  | other =>
+    simp only []
+    refine ⟨⟨?_, ?_, ?_, hi⟩, by simp⟩
+    · rw [citations_snoc, hit, ← hc]; simp
+    · rw [style_snoc, hit, ← hs]; simp
+    · rw [data_snoc, hit, ← hd]; simp
+
+theorem run_spec (before : List Event) (st : St) (evs : List Event) (h : Sim before st) :
+    Sim (before ++ evs) (run st evs) ∧
+    (run st evs).reports = st.reports ++ reportsAfter before evs := by
+  induction evs generalizing before st with
+  | nil => simp [reportsAfter, h]
+  | cons e evs ih =>
+    obtain ⟨h1, h2⟩ := applyEvent_spec before st e h
+    obtain ⟨i1, i2⟩ := ih (before ++ [e]) (applyEvent st e) h1
+    simp only [run_cons, reportsAfter]
+    refine ⟨by simpa using i1, ?_⟩
+    rw [i2, h2, List.append_assoc]
+
+/-- the final state is the denotation -/
+theorem final_spec (evs : List Event) :
+    (final evs).citations = citations evs ∧ (final evs).style = style evs ∧
+    (final evs).data = data evs ∧ (final evs).reports = reports evs := by
+  obtain ⟨⟨h1, h2, h3, _⟩, h5⟩ := run_spec [] St.init evs Sim.init
+  simp only [List.nil_append] at h1 h2 h3
+  exact ⟨h1, h2, h3, by rw [final, h5]; simp [St.init, reports]⟩
+
+/-! ## 5. fuel, and the absence of `AttributeError` -/
+
+theorem inputsOf_single_input (l : Str) (v : Path) (h : matchCommand l = some (.input, v)) :
+    inputsOf [l] = [v] := by
+  simp [inputsOf, h]
+
+theorem parseLine_congr (inp inp' : St → Path → Except Abort St) (st : St) (l : Str) (n : Nat)
+    (h : ∀ q ∈ inputsOf [l], ∀ s, inp s q = inp' s q) :
+    parseLine inp st l n = parseLine inp' st l n := by
+  unfold parseLine
+  cases st.context with
+  | none => rfl
+  | some c =>
+    simp only []
+    cases hm : matchCommand l with
+    | none => rfl
+    | some cv =>
+      obtain ⟨cmd, v⟩ := cv
+      cases cmd with
+      | input =>
+        simp only [handleCommand, handleInput]
+        exact h v (by rw [inputsOf_single_input l v hm]; simp) _
+      | citation => rfl
+      | bibstyle => rfl
+      | bibdata => rfl
+
+theorem inputsOf_head_subset (l : Str) (ls : List Str) : ∀ q ∈ inputsOf [l], q ∈ inputsOf (l :: ls) := by
+  intro q hq
+  cases hm : matchCommand l with
+  | none => simp [inputsOf, hm] at hq
+  | some cv =>
+    obtain ⟨cmd, v⟩ := cv
+    cases cmd <;> simp_all [inputsOf]
+
+theorem parseLines_congr (inp inp' : St → Path → Except Abort St) (ls : List Str) (n : Nat) (st : St)
+    (h : ∀ q ∈ inputsOf ls, ∀ s, inp s q = inp' s q) :
+    parseLines inp ls n st = parseLines inp' ls n st := by
+  induction ls generalizing n st with
+  | nil => rfl
+  | cons l ls ih =>
+    simp only [parseLines]
+    rw [parseLine_congr inp inp' st l n (fun q hq s => h q (inputsOf_head_subset l ls q hq) s)]
+    cases parseLine inp' st l n with
+    | error e => rfl
+    | ok st' => exact ih (n + 1) st' (fun q hq s => h q (inputsOf_subset_cons l ls q hq) s)
+
+theorem depthOk_succ (fs : FS) (d : Nat) (p : Path) :
+    depthOk fs (d + 1) p = (match fs p with | none => true | some lines => (inputsOf lines).all (depthOk fs d)) := rfl
+
+/-- the result of `parse_file` does not depend on the fuel once it covers the inclusion depth -/
+theorem parseFile_fuel (fs : FS) : ∀ (d fuel : Nat) (p : Path) (st : St) (tl : Bool),
+    depthOk fs d p = true → d ≤ fuel → parseFile fs fuel st p tl = parseFile fs d st p tl := by
+  intro d
+  induction d with
+  | zero => intro fuel p st tl h; simp [depthOk] at h
+  | succ d ih =>
+    intro fuel p st tl hd hle
+    obtain ⟨f, rfl⟩ : ∃ f, fuel = f + 1 := ⟨fuel - 1, by omega⟩
+    simp only [parseFile]
+    rw [depthOk_succ] at hd
+    cases hfs : fs p with
+    | none => rfl
+    | some lines =>
+      simp only [hfs, List.all_eq_true] at hd
+      simp only []
+      rw [parseLines_congr (fun s q => parseFile fs f s q false) (fun s q => parseFile fs d s q false) lines 1 _
+        (fun q hq s => ih f q s false (hd q hq) (by omega))]
+
+def NoFuelErr (r : Except Abort St) : Prop := ∀ a, r = .error a → a.fatal ≠ .outOfFuel
+
+theorem noFuel_ok (s : St) : NoFuelErr (.ok s) := fun a ha => by cases ha
+theorem noFuel_error (a : Abort) (h : a.fatal ≠ .outOfFuel) : NoFuelErr (.error a) :=
+  fun a' ha => by cases ha; exact h
+
+theorem parseLine_noFuel (inp : St → Path → Except Abort St) (st : St) (l : Str) (n : Nat)
+    (h : ∀ q ∈ inputsOf [l], ∀ s, NoFuelErr (inp s q)) : NoFuelErr (parseLine inp st l n) := by
+  unfold parseLine
+  cases st.context with
+  | none => exact noFuel_error _ (by simp)
+  | some c =>
+    simp only []
+    cases hm : matchCommand l with
+    | none => exact noFuel_ok _
+    | some cv =>
+      obtain ⟨cmd, v⟩ := cv
+      cases cmd with
+      | input =>
+        simp only [handleCommand, handleInput]
+        exact h v (by rw [inputsOf_single_input l v hm]; simp) _
+      | citation => exact noFuel_ok _
+      | bibstyle => exact noFuel_ok _
+      | bibdata => exact noFuel_ok _
+
+theorem parseLines_noFuel (inp : St → Path → Except Abort St) (ls : List Str) (n : Nat) (st : St)
+    (h : ∀ q ∈ inputsOf ls, ∀ s, NoFuelErr (inp s q)) : NoFuelErr (parseLines inp ls n st) := by
+  induction ls generalizing n st with
+  | nil => exact noFuel_ok _
+  | cons l ls ih =>
+    simp only [parseLines]
+    have h1 := parseLine_noFuel inp st l n (fun q hq s => h q (inputsOf_head_subset l ls q hq) s)
+    cases hp : parseLine inp st l n with
+    | error e => rw [hp] at h1; exact h1
+    | ok st' => exact ih (n + 1) st' (fun q hq s => h q (inputsOf_subset_cons l ls q hq) s)
+
+/-- `self.context` after the `if previous_context: … else: …` of `parse_file` -/
+def ctxAfter (prev : Option Ctx) (st : St) : Option Ctx :=
+  match prev with
+  | some c => some c
+  | none =>
+    match st.context with
+    | some c => some { c with line := none, lineno := none }
+    | none => none
+
+theorem finish_eq (prev : Option Ctx) (tl : Bool) (st : St) :
+    finish prev tl st =
+      (match ctxAfter prev st with
+       | none => .error ⟨.attributeError, st.reports⟩
+       | some ctx =>
+         if tl && st.data.isNone then .error ⟨.aux (mkError .noBibdata ctx), st.reports⟩
+         else if tl && st.style.isNone then .error ⟨.aux (mkError .noBibstyle ctx), st.reports⟩
+         else .ok (withCtx st (some ctx))) := by
+  cases prev with
+  | some c0 => rfl
+  | none =>
+    cases h : st.context with
+    | none => simp [finish, ctxAfter, h]
+    | some c => simp [finish, ctxAfter, h]
+
+theorem finish_noFuel (prev : Option Ctx) (tl : Bool) (st : St) : NoFuelErr (finish prev tl st) := by
+  rw [finish_eq]
+  cases ctxAfter prev st with
+  | none => exact noFuel_error _ (by simp)
+  | some ctx =>
+    simp only []
+    split
+    · exact noFuel_error _ (by simp)
+    · split
+      · exact noFuel_error _ (by simp)
+      · exact noFuel_ok _
+
+/-- with fuel ≥ inclusion depth the model never runs out of fuel -/
+theorem parseFile_noFuel (fs : FS) : ∀ (d : Nat) (p : Path) (st : St) (tl : Bool),
+    depthOk fs d p = true → NoFuelErr (parseFile fs d st p tl) := by
+  intro d
+  induction d with
+  | zero => intro p st tl h; simp [depthOk] at h
+  | succ d ih =>
+    intro p st tl hd
+    simp only [parseFile]
+    rw [depthOk_succ] at hd
+    cases hfs : fs p with
+    | none => exact noFuel_error _ (by simp)
+    | some lines =>
+      simp only [hfs, List.all_eq_true] at hd
+      simp only []
+      have h1 := parseLines_noFuel (fun s q => parseFile fs d s q false) lines 1
+        { st with context := some (Ctx.new p) } (fun q hq s => ih q s false (hd q hq))
+      cases hp : parseLines (fun s q => parseFile fs d s q false) lines 1 { st with context := some (Ctx.new p) } with
+      | error e => rw [hp] at h1; exact h1
+      | ok st' => exact finish_noFuel _ _ _
+
+theorem depthOk_mono (fs : FS) : ∀ (d : Nat) (p : Path), depthOk fs d p = true → depthOk fs (d + 1) p = true := by
+  intro d
+  induction d with
+  | zero => intro p h; simp [depthOk] at h
+  | succ d ih =>
+    intro p h
+    rw [depthOk_succ] at h ⊢
+    cases hfs : fs p with
+    | none => rfl
+    | some lines =>
+      simp only [hfs, List.all_eq_true] at h ⊢
+      exact fun q hq => ih q (h q hq)
+
+theorem closedDepth_succ (fs : FS) (d : Nat) (p : Path) :
+    closedDepth fs (d + 1) p = (match fs p with | none => false | some lines => (inputsOf lines).all (closedDepth fs d)) := rfl
+
+theorem closedDepth_depthOk (fs : FS) : ∀ (d : Nat) (p : Path), closedDepth fs d p = true → depthOk fs d p = true := by
+  intro d
+  induction d with
+  | zero => intro p h; simp [closedDepth] at h
+  | succ d ih =>
+    intro p h
+    rw [closedDepth_succ] at h
+    rw [depthOk_succ]
+    cases hfs : fs p with
+    | none => rfl
+    | some lines =>
+      simp only [hfs, List.all_eq_true] at h ⊢
+      exact fun q hq => ih q (h q hq)
+
+theorem dget_append_not_mem (pre suf : List (Path × List Str)) (v : Path) (h : v ∉ pre.map Prod.fst) :
+    dget (pre ++ suf) v = dget suf v := by
+  induction pre with
+  | nil => rfl
+  | cons e pre ih =>
+    obtain ⟨k, ls⟩ := e
+    simp only [List.map_cons, List.mem_cons, not_or] at h
+    simp only [List.cons_append, dget, if_neg (Ne.symm h.1), ih h.2]
+
+/-- files listed in a topological order of inclusion: every file has depth ≤ number of files + 1 -/
+theorem topo_depth (files : List (Path × List Str)) :
+    ∀ (suf pre : List (Path × List Str)) (seen : List Path), files = pre ++ suf →
+      (∀ q ∈ pre.map Prod.fst, q ∈ seen) → topoOk seen suf = true →
+      ∀ v, v ∉ seen → depthOk (fsOf files) (suf.length + 1) v = true := by
+  intro suf
+  induction suf with
+  | nil =>
+    intro pre seen hf hseen _ v hv
+    have : v ∉ pre.map Prod.fst := fun h => hv (hseen v h)
+    have h2 := dget_append_not_mem pre [] v this
+    simp only [List.append_nil] at h2
+    rw [List.length_nil, depthOk_succ]
+    simp only [fsOf, hf, List.append_nil, h2, dget]
+  | cons e rest ih =>
+    obtain ⟨p, lines⟩ := e
+    intro pre seen hf hseen htopo v hv
+    simp only [topoOk, Bool.and_eq_true, List.all_eq_true] at htopo
+    obtain ⟨hin, hrest⟩ := htopo
+    have ih' := ih (pre ++ [(p, lines)]) (p :: seen) (by simp [hf])
+      (by
+        intro q hq
+        simp only [List.map_append, List.map_cons, List.map_nil, List.mem_append, List.mem_singleton] at hq
+        rcases hq with h | h
+        · exact List.mem_cons_of_mem _ (hseen q h)
+        · simp [h])
+      hrest
+    have hvpre : v ∉ pre.map Prod.fst := fun h => hv (hseen v h)
+    by_cases hvp : v = p
+    · subst hvp
+      rw [List.length_cons, depthOk_succ]
+      have hfv : fsOf files v = some lines := by
+        simp only [fsOf, hf, dget_append_not_mem pre _ v hvpre, dget, if_true]
+      rw [hfv]
+      simp only [List.all_eq_true]
+      intro w hw
+      have hw' := hin w hw
+      simp only [Bool.not_eq_true', List.contains_eq_mem, decide_eq_false_iff_not] at hw'
+      exact ih' w hw'
+    · have hv' : v ∉ p :: seen := by simp [hvp, hv]
+      exact depthOk_mono _ _ _ (ih' v hv')
+
+def Good (r : Except Abort St) : Prop :=
+  (∀ a, r = .error a → a.fatal ≠ .attributeError) ∧ (∀ s, r = .ok s → s.context.isSome = true)
+
+theorem good_ok (s : St) (h : s.context.isSome = true) : Good (.ok s) :=
+  ⟨fun a ha => (by cases ha), fun s' hs => (by cases hs; exact h)⟩
+theorem good_error (a : Abort) (h : a.fatal ≠ .attributeError) : Good (.error a) :=
+  ⟨fun a' ha => (by cases ha; exact h), fun s' hs => (by cases hs)⟩
+
+theorem handleBibstyle_context (ctx : Ctx) (st : St) (v : Str) : (handleBibstyle ctx st v).context = st.context := by
+  simp only [handleBibstyle, report]; split <;> rfl
+
+theorem handleBibdata_context (ctx : Ctx) (st : St) (v : Str) : (handleBibdata ctx st v).context = st.context := by
+  simp only [handleBibdata, report]; split <;> rfl
+
+theorem parseLine_good (inp : St → Path → Except Abort St)
+    (hinp : ∀ s q, s.context.isSome = true → Good (inp s q))
+    (st : St) (l : Str) (n : Nat) (hst : st.context.isSome = true) : Good (parseLine inp st l n) := by
+  unfold parseLine
+  cases hc : st.context with
+  | none => simp [hc] at hst
+  | some c =>
+    simp only []
+    cases matchCommand l with
+    | none => exact good_ok _ rfl
+    | some cv =>
+      obtain ⟨cmd, v⟩ := cv
+      cases cmd with
+      | input => exact hinp _ _ rfl
+      | citation =>
+        refine good_ok _ ?_
+        simp only [handleCitation, foldl_citeKey_context]; rfl
+      | bibstyle =>
+        refine good_ok _ ?_
+        rw [handleBibstyle_context]; rfl
+      | bibdata =>
+        refine good_ok _ ?_
+        rw [handleBibdata_context]; rfl
+
+theorem parseLines_good (inp : St → Path → Except Abort St)
+    (hinp : ∀ s q, s.context.isSome = true → Good (inp s q))
+    (ls : List Str) (n : Nat) (st : St) (hst : st.context.isSome = true) : Good (parseLines inp ls n st) := by
+  induction ls generalizing n st with
+  | nil => exact good_ok _ hst
+  | cons l ls ih =>
+    simp only [parseLines]
+    have h1 := parseLine_good inp hinp st l n hst
+    cases hp : parseLine inp st l n with
+    | error e => rw [hp] at h1; exact h1
+    | ok st' => exact ih (n + 1) st' (h1.2 st' hp)
+
+theorem finish_good (prev : Option Ctx) (tl : Bool) (st : St) (hst : st.context.isSome = true) :
+    Good (finish prev tl st) := by
+  rw [finish_eq]
+  have : ∃ ctx, ctxAfter prev st = some ctx := by
+    cases prev with
+    | some c0 => exact ⟨c0, rfl⟩
+    | none =>
+      cases hc : st.context with
+      | none => simp [hc] at hst
+      | some c => exact ⟨{ c with line := none, lineno := none }, by simp [ctxAfter, hc]⟩
+  obtain ⟨ctx, hctx⟩ := this
+  rw [hctx]
+  simp only []
+  split
+  · exact good_error _ (by simp)
+  · split
+    · exact good_error _ (by simp)
+    · exact good_ok _ rfl
+
+/-- on every file system (cyclic or not), with every fuel and from every state: the parser never
+dereferences a missing context, and returns with a context set -/
+theorem parseFile_good (fs : FS) : ∀ (fuel : Nat) (st : St) (p : Path) (tl : Bool),
+    Good (parseFile fs fuel st p tl) := by
+  intro fuel
+  induction fuel with
+  | zero => intro st p tl; exact good_error _ (by simp)
+  | succ f ih =>
+    intro st p tl
+    simp only [parseFile]
+    cases fs p with
+    | none => exact good_error _ (by simp)
+    | some lines =>
+      simp only []
+      have h1 := parseLines_good (fun s q => parseFile fs f s q false) (fun s q _ => ih s q false) lines 1
+        { st with context := some (Ctx.new p) } rfl
+      cases hp : parseLines (fun s q => parseFile fs f s q false) lines 1 { st with context := some (Ctx.new p) } with
+      | error e => rw [hp] at h1; exact h1
+      | ok st' => exact finish_good _ _ _ (h1.2 st' hp)
+
+/-! ## 6. lines that are no command are ignored (document level) -/
+
+def keepLine (l : Str) : Bool := decide (classify l ≠ .other)
+def nonOther (e : Event) : Bool := decide (e.item ≠ .other)
+def sig (e : Event) : Path × Item := (e.file, e.item)
+
+theorem keepLine_false_iff (l : Str) : keepLine l = false ↔ matchCommand l = none := by
+  simp only [keepLine, classify_eq, decide_eq_false_iff_not, ne_eq, Decidable.not_not]
+  cases matchCommand l with
+  | none => simp [toItem]
+  | some cv => obtain ⟨c, v⟩ := cv; cases c <;> simp [toItem]
+
+theorem inputsOf_filter (ls : List Str) : inputsOf (ls.filter keepLine) = inputsOf ls := by
+  induction ls with
+  | nil => rfl
+  | cons l ls ih =>
+    cases hk : keepLine l with
+    | false =>
+      have hm := (keepLine_false_iff l).mp hk
+      simp [List.filter, hk, inputsOf, hm, ih]
+    | true =>
+      simp only [List.filter, hk, inputsOf, ih]
+
+theorem closedDepth_strip (fs : FS) : ∀ (d : Nat) (p : Path),
+    closedDepth (commandLinesOnly fs) d p = closedDepth fs d p := by
+  intro d
+  induction d with
+  | zero => intro p; rfl
+  | succ d ih =>
+    intro p
+    rw [closedDepth_succ, closedDepth_succ]
+    simp only [commandLinesOnly]
+    cases fs p with
+    | none => rfl
+    | some lines =>
+      simp only [Option.map_some]
+      have : (List.filter (fun l => decide (classify l ≠ .other)) lines) = lines.filter keepLine := rfl
+      rw [this, inputsOf_filter]
+      congr 1
+      funext q
+      exact ih q
+
+theorem lineEvents_strip (sub sub' : Path → List Event) (p : Path)
+    (h : ∀ q, (sub' q).map sig = ((sub q).filter nonOther).map sig) :
+    ∀ (ls : List Str) (n n' : Nat),
+      (lineEvents sub' p (ls.filter keepLine) n').map sig =
+        ((lineEvents sub p ls n).filter nonOther).map sig := by
+  intro ls
+  induction ls with
+  | nil => intro n n'; rfl
+  | cons l ls ih =>
+    intro n n'
+    cases hk : keepLine l with
+    | false =>
+      have hcl : classify l = .other := by simpa [keepLine] using hk
+      simp only [List.filter, hk, lineEvents, hcl, List.nil_append]
+      rw [ih (n + 1) n']
+      simp [nonOther]
+    | true =>
+      have hcl : classify l ≠ .other := by simpa [keepLine] using hk
+      simp only [List.filter, hk, lineEvents]
+      have hne : nonOther ⟨p, n, strip l, classify l⟩ = true := by simp [nonOther, hcl]
+      simp only [hne, List.map_cons, List.filter_append, List.map_append]
+      rw [ih (n + 1) (n' + 1)]
+      congr 1
+      congr 1
+      cases classify l with
+      | input q => exact h q
+      | citation ks => rfl
+      | bibstyle s => rfl
+      | bibdata ns => rfl
+      | other => rfl
+
+theorem events_strip (fs : FS) : ∀ (d : Nat) (p : Path),
+    (events (commandLinesOnly fs) d p).map sig = ((events fs d p).filter nonOther).map sig := by
+  intro d
+  induction d with
+  | zero => intro p; rfl
+  | succ d ih =>
+    intro p
+    simp only [events, commandLinesOnly]
+    cases fs p with
+    | none => rfl
+    | some lines =>
+      simp only [Option.map_some]
+      exact lineEvents_strip (events fs d) (events (commandLinesOnly fs) d) p ih lines 1 1
+
+def eraseLoc (st : St) : St := { st with reports := st.reports.map unlocated }
+
+theorem run_filter (st : St) (evs : List Event) : run st (evs.filter nonOther) = run st evs := by
+  induction evs generalizing st with
+  | nil => rfl
+  | cons e evs ih =>
+    cases hk : nonOther e with
+    | true => simp only [List.filter, hk, run_cons, ih]
+    | false =>
+      have : e.item = .other := by simpa [nonOther] using hk
+      simp only [List.filter, hk, run_cons, ih]
+      congr 1
+      simp [applyEvent, this]
+
+theorem eraseLoc_eq_iff (a b : St) :
+    eraseLoc a = eraseLoc b ↔
+      a.context = b.context ∧ a.style = b.style ∧ a.data = b.data ∧ a.citations = b.citations ∧
+      a.canonical = b.canonical ∧ a.reports.map unlocated = b.reports.map unlocated := by
+  obtain ⟨a1, a2, a3, a4, a5, a6⟩ := a
+  obtain ⟨b1, b2, b3, b4, b5, b6⟩ := b
+  simp [eraseLoc]
+
+theorem unlocated_mkError (k : Kind) (c c' : Ctx) (h : c.filename = c'.filename) :
+    unlocated (mkError k c) = unlocated (mkError k c') := by
+  simp [unlocated, mkError, h]
+
+theorem citeKey_erase (c c' : Ctx) (hc : c.filename = c'.filename) (a b : St) (k : Str)
+    (h : eraseLoc a = eraseLoc b) : eraseLoc (citeKey c a k) = eraseLoc (citeKey c' b k) := by
+  obtain ⟨a1, a2, a3, a4, a5, a6⟩ := a
+  obtain ⟨b1, b2, b3, b4, b5, b6⟩ := b
+  simp only [eraseLoc, St.mk.injEq] at h
+  obtain ⟨rfl, rfl, rfl, rfl, rfl, h6⟩ := h
+  simp only [citeKey, report, eraseLoc]
+  cases dget a5 (lower k) with
+  | none => simp [h6]
+  | some ex => by_cases hne : k = ex <;> simp [hne, h6, unlocated_mkError _ c c' hc]
+
+theorem foldl_citeKey_erase (c c' : Ctx) (hc : c.filename = c'.filename) (keys : List Str) (a b : St)
+    (h : eraseLoc a = eraseLoc b) :
+    eraseLoc (keys.foldl (citeKey c) a) = eraseLoc (keys.foldl (citeKey c') b) := by
+  induction keys generalizing a b with
+  | nil => exact h
+  | cons k ks ih => exact ih _ _ (citeKey_erase c c' hc a b k h)
+
+theorem applyEvent_erase (e e' : Event) (hs : sig e = sig e') (a b : St) (h : eraseLoc a = eraseLoc b) :
+    eraseLoc (applyEvent a e) = eraseLoc (applyEvent b e') := by
+  simp only [sig, Prod.mk.injEq] at hs
+  obtain ⟨hf, hi⟩ := hs
+  have hc : (ctxOf e).filename = (ctxOf e').filename := hf
+  unfold applyEvent
+  rw [← hi]
+  cases e.item with
+  | citation keys => exact foldl_citeKey_erase _ _ hc keys a b h
+  | bibstyle s =>
+    obtain ⟨a1, a2, a3, a4, a5, a6⟩ := a
+    obtain ⟨b1, b2, b3, b4, b5, b6⟩ := b
+    simp only [eraseLoc, St.mk.injEq] at h
+    obtain ⟨rfl, rfl, rfl, rfl, rfl, h6⟩ := h
+    simp only [handleBibstyle, report, eraseLoc]
+    cases a2 with
+    | none => simp [h6]
+    | some s0 => simp [h6, unlocated_mkError _ _ _ hc]
+  | bibdata ns =>
+    obtain ⟨a1, a2, a3, a4, a5, a6⟩ := a
+    obtain ⟨b1, b2, b3, b4, b5, b6⟩ := b
+    simp only [eraseLoc, St.mk.injEq] at h
+    obtain ⟨rfl, rfl, rfl, rfl, rfl, h6⟩ := h
+    simp only [report, eraseLoc]
+    cases a3 with
+    | none => simp [h6]
+    | some s0 => simp [h6, unlocated_mkError _ _ _ hc]
+  | input q => exact h
+  | other => exact h
+
+theorem run_erase (evs evs' : List Event) (hs : evs.map sig = evs'.map sig) (a b : St)
+    (h : eraseLoc a = eraseLoc b) : eraseLoc (run a evs) = eraseLoc (run b evs') := by
+  induction evs generalizing evs' a b with
+  | nil =>
+    cases evs' with
+    | nil => exact h
+    | cons e' evs' => simp at hs
+  | cons e evs ih =>
+    cases evs' with
+    | nil => simp at hs
+    | cons e' evs' =>
+      simp only [List.map_cons, List.cons.injEq] at hs
+      exact ih evs' hs.2 _ _ (applyEvent_erase e e' hs.1 a b h)
+
+/-- deleting the lines that are no command changes nothing but the line numbers in the reports -/
+theorem parse_strip (fs : FS) (d fuel : Nat) (p : Path) (hcl : closedDepth fs d p = true) (hle : d ≤ fuel) :
+    outcome (parse (commandLinesOnly fs) fuel p) = outcome (parse fs fuel p) := by
+  have hcl' : closedDepth (commandLinesOnly fs) d p = true := by rw [closedDepth_strip]; exact hcl
+  rw [parse_eq fs d fuel p hcl hle, parse_eq (commandLinesOnly fs) d fuel p hcl' hle]
+  have key : eraseLoc (final (events (commandLinesOnly fs) d p)) = eraseLoc (final (events fs d p)) := by
+    unfold final
+    rw [← run_filter St.init (events fs d p)]
+    exact run_erase _ _ (events_strip fs d p) _ _ rfl
+  rw [eraseLoc_eq_iff] at key
+  obtain ⟨h1, h2, h3, h4, h5, h6⟩ := key
+  simp only [h2, h3]
+  split
+  · simp only [outcome, h6]
+  · split
+    · simp only [outcome, h6]
+    · simp only [outcome, h2, h3, h4, h5, h6]
+
+/-! ## 7. the top-level result in terms of the specification; splitting lemmas -/
+
+/-- The parse of a closed, acyclic document IS its denotation (`canonical` is the parser's private
+dictionary of spellings). -/
+theorem parse_spec (fs : FS) (d fuel : Nat) (p : Path) (hcl : closedDepth fs d p = true) (hle : d ≤ fuel) :
+    parse fs fuel p =
+      (match Spec.fatal (events fs d p) with
+       | some k => .error ⟨.aux ⟨k, p, none, none⟩, reports (events fs d p)⟩
+       | none => .ok ⟨some ⟨p, none, none⟩, style (events fs d p), data (events fs d p),
+                      citations (events fs d p), (final (events fs d p)).canonical,
+                      reports (events fs d p)⟩) := by
+  rw [parse_eq fs d fuel p hcl hle]
+  obtain ⟨h1, h2, h3, h4⟩ := final_spec (events fs d p)
+  simp only [Spec.fatal, ← h1, ← h2, ← h3, ← h4, mkError]
+  generalize final (events fs d p) = X
+  obtain ⟨x1, x2, x3, x4, x5, x6⟩ := X
+  cases x3 <;> cases x2 <;> simp [withCtx]
+
+theorem reportsAfter_append (b x y : List Event) :
+    reportsAfter b (x ++ y) = reportsAfter b x ++ reportsAfter (b ++ x) y := by
+  induction x generalizing b with
+  | nil => simp [reportsAfter]
+  | cons e x ih => simp [reportsAfter, ih, List.append_assoc]
+
+theorem mismatches_append (b x y : List Str) :
+    mismatches b (x ++ y) = mismatches b x ++ mismatches (b ++ x) y := by
+  induction x generalizing b with
+  | nil => simp [mismatches]
+  | cons k x ih => simp [mismatches, ih, List.append_assoc]
+
+theorem lineEvents_append (sub : Path → List Event) (p : Path) (l1 l2 : List Str) (n : Nat) :
+    lineEvents sub p (l1 ++ l2) n = lineEvents sub p l1 n ++ lineEvents sub p l2 (n + l1.length) := by
+  induction l1 generalizing n with
+  | nil => simp [lineEvents]
+  | cons l l1 ih =>
+    have : n + 1 + l1.length = n + (l1.length + 1) := by omega
+    simp only [List.cons_append, lineEvents, ih, List.length_cons, List.append_assoc, this]
+
+/-- a problem caused by an event somewhere in the document is among the reports -/
+theorem mem_reports_of_split (pre post : List Event) (e : Event) (r : Report)
+    (h : r ∈ reportsOf pre e) : r ∈ reports (pre ++ e :: post) := by
+  unfold reports
+  rw [reportsAfter_append]
+  simp only [List.nil_append, reportsAfter, List.mem_append]
+  exact Or.inr (Or.inl h)
+
+theorem captured_parse (fs : FS) (d fuel : Nat) (p : Path) (hcl : closedDepth fs d p = true) (hle : d ≤ fuel) :
+    captured (parse fs fuel p) = reports (events fs d p) := by
+  rw [parse_spec fs d fuel p hcl hle]
+  cases Spec.fatal (events fs d p) <;> rfl
+
+theorem takeWhile_eq_iff (s body : Str) :
+    s.takeWhile (· ≠ '\n') = body ↔
+      ∃ rest, s = body ++ rest ∧ '\n' ∉ body ∧ (rest = [] ∨ ∃ r, rest = '\n' :: r) := by
+  induction s generalizing body with
+  | nil =>
+    constructor
+    · intro h; subst h; exact ⟨[], by simp⟩
+    · rintro ⟨rest, h, _, _⟩
+      have := List.append_eq_nil_iff.mp h.symm
+      simp [this.1]
+  | cons c s ih =>
+    by_cases hc : c = '\n'
+    · subst hc
+      simp only [List.takeWhile, ne_eq, not_true_eq_false, decide_false]
+      constructor
+      · intro h; subst h; exact ⟨'\n' :: s, by simp⟩
+      · rintro ⟨rest, h, hb, _⟩
+        cases body with
+        | nil => rfl
+        | cons b body =>
+          simp only [List.cons_append, List.cons.injEq] at h
+          simp [← h.1] at hb
+    · have hd : decide (c ≠ '\n') = true := by simp [hc]
+      simp only [List.takeWhile, hd]
+      constructor
+      · intro h
+        subst h
+        obtain ⟨rest, h1, h2, h3⟩ := (ih _).mp rfl
+        refine ⟨rest, congrArg (c :: ·) h1, ?_, h3⟩
+        simp only [List.mem_cons, not_or]
+        exact ⟨fun e => hc e.symm, h2⟩
+      · rintro ⟨rest, h, hb, hr⟩
+        cases body with
+        | nil =>
+          simp only [List.nil_append] at h
+          rcases hr with hr | ⟨r, hr⟩
+          · simp [hr] at h
+          · rw [hr] at h; simp only [List.cons.injEq] at h; exact absurd h.1 hc
+        | cons b body =>
+          simp only [List.cons_append, List.cons.injEq] at h
+          simp only [List.mem_cons, not_or] at hb
+          rw [h.1, (ih body).mpr ⟨rest, h.2, hb.2, hr⟩]
+
+/-- The shape of a command line, in words: `line = \name{arg}tail rest` where `arg` and `tail`
+contain no newline, `tail` contains no `}`, and `rest` is empty or starts with a newline. -/
+theorem argOf_shape (name line arg : Str) :
+    argOf name line = some arg ↔
+      ∃ tail rest, line = '\\' :: name ++ '{' :: arg ++ '}' :: tail ++ rest ∧
+        '\n' ∉ arg ∧ '\n' ∉ tail ∧ '}' ∉ tail ∧ (rest = [] ∨ ∃ r, rest = '\n' :: r) := by
+  cases line with
+  | nil =>
+    rw [argOf_nil]
+    constructor
+    · intro h; cases h
+    · rintro ⟨tail, rest, h, _⟩; simp at h
+  | cons c s =>
+    by_cases hc : c = '\\'
+    · subst hc
+      rw [argOf_cons]
+      constructor
+      · intro h
+        cases hm : matchLit name s with
+        | none => rw [hm] at h; cases h
+        | some r =>
+          rw [hm] at h
+          simp only [] at h
+          have hs := (matchLit_some name s r).mp hm
+          cases r with
+          | nil => simp [matchGroup] at h
+          | cons c1 r =>
+            simp only [matchGroup] at h
+            by_cases hc1 : c1 = '{'
+            · subst hc1
+              simp only [if_true] at h
+              obtain ⟨t, ht, hnt⟩ := (beforeLastClose_some _ _).mp h
+              obtain ⟨rest, h1, h2, h3⟩ := (takeWhile_eq_iff r _).mp ht
+              refine ⟨t, rest, ?_, ?_, ?_, hnt, h3⟩
+              · rw [hs, h1]; simp
+              · intro hm'; exact h2 (by simp [hm'])
+              · intro hm'; exact h2 (by simp [hm'])
+            · simp [hc1] at h
+      · rintro ⟨tail, rest, h, h1, h2, h3, h4⟩
+        simp only [List.cons_append, List.cons.injEq, true_and] at h
+        have hm : matchLit name s = some ('{' :: arg ++ '}' :: tail ++ rest) :=
+          (matchLit_some name s _).mpr (by rw [h]; simp)
+        rw [hm]
+        simp only [matchGroup, List.cons_append, if_true]
+        have ht : List.takeWhile (· ≠ '\n') (arg ++ '}' :: (tail ++ rest)) = arg ++ '}' :: tail :=
+          (takeWhile_eq_iff _ _).mpr ⟨rest, by simp, by
+            simp only [List.mem_append, List.mem_cons, not_or]
+            exact ⟨h1, by decide, h2⟩, h4⟩
+        simp only [List.append_assoc, List.cons_append] at ht ⊢
+        rw [ht]
+        exact (beforeLastClose_some _ _).mpr ⟨tail, rfl, h3⟩
+    · rw [argOf_not_backslash _ _ _ hc]
+      constructor
+      · intro h; cases h
+      · rintro ⟨tail, rest, h, _⟩
+        simp only [List.cons_append, List.cons.injEq] at h
+        exact absurd h.1 hc
+
 end Pybtex.Aux
